@@ -267,3 +267,25 @@ def option_consumers(run, ctx):
         if not ok:
             run.violation(fam, label, "parser-seed", H.where(pc), "parse_with_casei does not set FLAG_CASEI when asked to")
     run.ok(fam, label, "src/lib.rs", n, "setters %s; every set field has its consumer on both construction paths" % {k: v for k, v in setters.items() if v})
+
+
+def limit_provenance(run, ctx):
+    """The limit operand of vm::run comes from the user's options on all entry points (shares options_provenance)."""
+    fam, label = "FLOW", "limit-origin"
+    pv = Prov(ctx)
+    callee = [p for p in ctx.cg.bodies if strip_generics(p) == "vm::run"]
+    if len(callee) != 1:
+        run.violation(fam, label, "anchor-missing/vm::run", "src/vm.rs", "anchor-missing: vm::run")
+        return
+    n = 0
+    for caller, bi, t in pv.callers.get(callee[0], []):
+        cs = strip_generics(caller)
+        body = ctx.cg.bodies[caller]
+        og = pv.origins(caller, body.op(t["args"][4]))
+        n += 1
+        bad = [o for o in og if not (o in ALLOWED_OPTION_ORIGINS or (o[0] == "default" and o[1] in DEBUG_API) or o[0] == "api-param")]
+        if bad or not og:
+            run.violation(fam, label, "%s/%s" % (cs, ",".join("%s@%s" % b for b in bad) or "none"), "%s:%d" % (t["span"]["file"], t["span"]["line"]),
+                          "vm::run called from %s with options of origin %s: the user's backtrack_limit would not apply" % (cs, bad))
+    run.floor(fam, label, "src/lib.rs", n, 3, "vm::run call sites")
+    run.ok(fam, label, "src/lib.rs", n, "backtrack_limit operand of every vm::run call comes from the user's options")
